@@ -77,6 +77,14 @@ Theorem C05_core_coverage_on_box :
 Proof. vm_compute. repeat split; reflexivity. Qed.
 Print Assumptions C05_core_coverage_on_box.
 
+(* the binary32 computation agrees with the exact ceiling on 368 x 45 operand pairs with |s|, t <= 2^24
+   (all small values, both ends of the exact range, powers of two and their neighbours) *)
+Theorem C05_float_model_consistent_on_sample :
+  forallb (fun s => forallb (fun t => match float_len_big s t with Len l => l =? u64 (ceil_div s t) | LenUB => false end)
+                            float_sample_t) float_sample_s = true.
+Proof. vm_compute. reflexivity. Qed.
+Print Assumptions C05_float_model_consistent_on_sample.
+
 (* ---------- the full statement is false for the pinned code: one witness per failing family ---------- *)
 Definition axis_wrong (n : Z) (a b c : option Z) : Prop := model_axis_ok n a b c = false.
 
@@ -111,6 +119,13 @@ Theorem C05_refuted_negative_step_start :
   slice_len 5 (Some 3) (Some 1) (Some (-1)) = Len 2 /\ py_len 5 (Some 3) (Some 1) (Some (-1)) = 2
   /\ compute_index 0 5 (Some 3) (Some 1) (Some (-1)) = 0 /\ py_index 0 5 (Some 3) (Some 1) (Some (-1)) = 3
   /\ compute_index 1 5 (Some 3) (Some 1) (Some (-1)) = 2 ^ 64 - 1.
+Proof. vm_compute. repeat split; reflexivity. Qed.
+(* above 2^24 the length goes through binary32: a[:] on extent 2^24+1 has length 2^24; from 2^31-64 on the
+   conversion to int is undefined *)
+Theorem C05_refuted_float_len :
+  slice_len (2 ^ 24 + 1) None None None = Len (2 ^ 24) /\ py_len (2 ^ 24 + 1) None None None = 2 ^ 24 + 1
+  /\ slice_len (2 ^ 24 + 3) None None (Some 1) = Len (2 ^ 24 + 4)
+  /\ slice_len (2 ^ 31 - 64) None None None = LenUB.
 Proof. vm_compute. repeat split; reflexivity. Qed.
 (* the full statement over the property's own box is false: 5 127 of 7 588 inputs *)
 Theorem C05_refuted_on_box :
